@@ -363,6 +363,21 @@ RULE_EXTRA9 = {
     "C09": "Two more partial application decorations (inner divider only, header bar only).",
 }
 
+# additions of round 10 (DESIGN 9.21)
+RULE_EXTRA10 = {
+    "C02": "A sixth of the cases have an application callback that adds a computed cell to every row it is handed at add time.",
+    "C05": "Now and then the checked output is also appended with RenderTo to a file that already holds a line.",
+    "C07": "The ASCII alphabet (every property's) now holds printf verbs (%, %s, 50%, %d%%).",
+    "C10": "Wrapper chains may contain an application type that embeds a tabular.Table and is handed around by value.",
+    "C11": "Now and then rows and headers of 9-13 cells (past the ten-entry column list in one step); registrations favour the highest column of the moment.",
+    "C12": "One more key: a pointer to a struct that holds a slice; one more value form: a typed nil pointer (a value like any other).",
+    "C13": "Build steps include property steps on the columns (skipable, alignment, user keys): callbacks fire whatever the columns carry.",
+    "C14": "realign acts change a column's alignment between renders (from then on part of the content); an HTML wrapper's template name changes from use to use.",
+    "C15": "A sixth of the items are of any kind (also ones JSON renders by their text); HTML wrappers have a row-class generator installed in half of the html cases.",
+    "C16": "Now and then a goroutine's table has 260-520 rows and render-time callbacks with plain state of their own.",
+    "C19": "auto.RenderTo(t, w, style) must agree with auto.New(style).Render(); what ListStyles handed out is overwritten by the caller before it is asked again.",
+}
+
 # properties deliberately not claimed, with the reason (empty: the technique applies to all 19)
 NOT_APPLICABLE = {}
 
@@ -380,3 +395,6 @@ for _pid, _extra in RULE_EXTRA8.items():
 
 for _pid, _extra in RULE_EXTRA9.items():
     PLAN[_pid]["rule"] = PLAN[_pid]["rule"] + " Round 9: " + _extra
+
+for _pid, _extra in RULE_EXTRA10.items():
+    PLAN[_pid]["rule"] = PLAN[_pid]["rule"] + " Round 10: " + _extra
